@@ -2,6 +2,7 @@ import FgaVerif.Gen.Atn
 import FgaVerif.Model.Listener
 import FgaVerif.Model.AtnGraph
 import FgaVerif.Gen.Grammar
+import FgaVerif.Gen.LexGrammar
 /-!
 # C19 — the Go, JS and Java parsers are generated from the one grammar in the repository
 
@@ -130,6 +131,66 @@ theorem grammar_rule_names : FgaVerif.Gen.Grammar.rules.map (·.1) = goParserRul
 /-- every rule body of the `.g4` has the local sets of its sub-automaton in the embedded ATN -/
 theorem grammar_matches_atn :
     (List.range FgaVerif.Gen.Grammar.rules.length).all ruleAgrees = true ∧ 20 < FgaVerif.Gen.Grammar.rules.length := by
+  decide +kernel
+
+/-! ## The lexer grammar and the lexer automaton
+
+    The same for `OpenFGALexer.g4` (`Gen/LexGrammar.lean`, 75 rules with fragments, two modes) and the
+    lexer ATN of the generated lexers (equal across Go/JS/Java by `lexer_atn_equal`): per rule the local
+    sets over characters and rule references (character sets evaluated on every ASCII code point and
+    nine sample code points beyond; `lexer_sets_ascii_or_cofinite` shows that no set of the automaton
+    distinguishes between non-ASCII characters other than by containing all or none of a sample's
+    kind), the lexer commands (`pushMode`, `popMode`, `type`, `channel`), the token type the rule
+    produces, and for each mode the list of its token rules in priority order. -/
+
+open FgaVerif.Model.AtnGraph in
+def lexerAtn : LexAtn := (deserializeLexer goLexerAtn).getD default
+
+open FgaVerif.Model.AtnGraph in
+def lexResolved : List NGram := FgaVerif.Gen.LexGrammar.rules.map (fun r => lexResolve goLexerRules r.body)
+
+def tokTypeOf (name : String) : Nat := (goLexerSymbolic.findIdx? (· == name)).getD 0
+
+open FgaVerif.Model.AtnGraph in
+def lexRuleAgrees (i : Nat) : Bool :=
+  match lexResolved[i]?, FgaVerif.Gen.LexGrammar.rules[i]? with
+  | some g, some r =>
+      lexAtnLocal lexerAtn.base i == gramLocal256 g &&
+      atnCommands lexerAtn i == gramCommands goLexerSymbolic goLexerModes r.commands &&
+      lexerAtn.ruleTokenType[i]? == some (if r.fragment then 0 else tokTypeOf r.name)
+  | _, _ => false
+
+open FgaVerif.Model.AtnGraph in
+def modeAgrees (m : Nat) : Bool :=
+  match goLexerModes[m]? with
+  | some mode => atnModeRules lexerAtn m ==
+      (List.range FgaVerif.Gen.LexGrammar.rules.length).filter (fun i =>
+        match FgaVerif.Gen.LexGrammar.rules[i]? with
+        | some r => r.mode == mode && !r.fragment
+        | none => false)
+  | none => false
+
+theorem lexer_atn_deserializes : (FgaVerif.Model.AtnGraph.deserializeLexer goLexerAtn).isSome = true := by
+  decide +kernel
+
+/-- the rules of the lexer grammar (fragments included), in order, are the rule table of the lexers -/
+theorem lexer_rule_names : FgaVerif.Gen.LexGrammar.rules.map (·.name) = goLexerRules := by decide +kernel
+
+/-- every lexer rule has the local sets, the commands and the token type of its sub-automaton -/
+theorem lexer_grammar_matches_atn :
+    (List.range FgaVerif.Gen.LexGrammar.rules.length).all lexRuleAgrees = true ∧
+    60 < FgaVerif.Gen.LexGrammar.rules.length := by
+  decide +kernel
+
+/-- each mode offers exactly its token rules, in grammar (= priority) order -/
+theorem lexer_modes_match : (List.range goLexerModes.length).all modeAgrees = true ∧ goLexerModes.length = 2 := by
+  decide +kernel
+
+/-- all interval bounds of the automaton's character sets, atoms and ranges are ASCII, or the set
+    extends to the last code point -/
+theorem lexer_sets_ascii_or_cofinite :
+    (lexerAtn.base.sets.all (fun iv => iv.all (fun (a, b) => a < 128 && (b < 128 || b == 0x10FFFF))) &&
+     lexerAtn.base.edges.all (fun e => (e.ty != 5 || e.a1 < 128) && (e.ty != 2 || (e.a1 < 128 && e.a2 < 128)))) = true := by
   decide +kernel
 
 end FgaVerif.Props.C19
